@@ -90,7 +90,33 @@ sys.exit(0)
 '''
 
 
+GRAPH_PATTERN = '''
+import sys, os, subprocess
+prog = """
+from onnxscript.rewriter import _pattern_ir as P
+x = P.Var('x')
+ns = [P.NodePattern('', f'Op{i}', [x], {}, [f'o{i}'], allow_other_attributes=None, allow_other_inputs=None) for i in range(4)]
+gp = P.GraphPattern([x], [n.outputs[0] for n in ns], ns)
+print([str(n.op) for n in gp.output_nodes])
+"""
+seen = {}
+for seed in range(12):
+    env = dict(os.environ, PYTHONHASHSEED=str(seed))
+    out = subprocess.run([sys.executable, "-c", prog], env=env, capture_output=True, text=True)
+    if out.returncode != 0:
+        print(out.stderr[-2000:]); sys.exit(3)
+    seen.setdefault(out.stdout.strip(), []).append(seed)
+want = str([f"Op{i}" for i in range(4)])
+if set(seen) != {want}:
+    print("GraphPattern.output_nodes for outputs (Op0, Op1, Op2, Op3) under PYTHONHASHSEED 0..11:", seen)
+    sys.exit(1)
+sys.exit(0)
+'''
+
+
 def replay(ob):
+    if "C14.graph_pattern.output_nodes" in ob["name"]:
+        return GRAPH_PATTERN
     if "C14.eager.executed_function_reads_globals" in ob["name"]:
         return EAGER_GLOBALS
     if "snapshot_of_the_script_time_constant" in ob["name"]:
